@@ -365,6 +365,24 @@ func (w *waiters) start(app string, hold bool, res *HResult) {
 		if !hold {
 			w.release(res)
 		}
+	case "ACursorGiveUp":
+		// in the middle of a plan: the call to CursorPosition in progress returns now, with its
+		// answer or because its 50 ms timer fires; what follows in the plan meets the state the
+		// finished (timed-out) query leaves behind
+		if w.cursor {
+			w.release(res)
+			select {
+			case rc := <-w.curCh:
+				if rc != [2]int{-1, -1} || w.zeroAnswer {
+					res.Cursors = append(res.Cursors, [2]int{rc[0] + 1, rc[1] + 1})
+				}
+			case <-time.After(500 * time.Millisecond):
+				res.Msg += " CursorPosition did not return"
+			}
+			w.cursor = false
+			w.zeroAnswer = false
+			res.Steps = append(res.Steps, Step{App: "ACursorGiveUp"})
+		}
 	case "AClipLeave":
 		if w.clip {
 			w.leaveClip(res)
@@ -568,10 +586,8 @@ func runCase(hc HCase) HResult {
 	}
 	if res.Code == 0 {
 		// the waiting callers return (answer, 50 ms time-out, or cancellation)
-		for _, s := range hc.Plan {
-			if s.App == "ACursorQuery" {
-				res.Steps = append(res.Steps, Step{App: "ACursorGiveUp"})
-			}
+		if w.cursor {
+			res.Steps = append(res.Steps, Step{App: "ACursorGiveUp"})
 		}
 		// a call to ClipboardPop still in progress returns (step AClipLeave)
 		w.finish(&res)
